@@ -185,6 +185,7 @@ func DiscoverRoles(p *Prog) *Roles {
 			_ = recv
 		}
 	}
+	svcF = discoverServiceFields(p, ro)
 	return ro
 }
 
@@ -325,4 +326,96 @@ func (ro *Roles) keepsWriting(f *ssa.Function) bool {
 		}
 	}
 	return ro.reachW[f]
+}
+
+// svcFields: the members of Service the rules speak about, found by type and use, not by name (unexported members
+// can be renamed freely): the listener (type net.Listener), the mutex (sync.Mutex/RWMutex), the running flag (the bool
+// member; with several, the one a serving function sets to true), the dispatcher table (map[string]<interface with
+// VarlinkDispatch>), the description table (map[string]string) and the registration-order list ([]string).
+type svcFields struct {
+	Listener, Mutex, Running, Interfaces, Descriptions, Names string
+}
+
+// svcF is set by DiscoverRoles.
+var svcF svcFields
+
+func discoverServiceFields(p *Prog, ro *Roles) svcFields {
+	var f svcFields
+	if ro.ServiceT == nil {
+		return f
+	}
+	st, ok := ro.ServiceT.Underlying().(*types.Struct)
+	if !ok {
+		return f
+	}
+	var bools, strLists []string
+	for i := 0; i < st.NumFields(); i++ {
+		fld := st.Field(i)
+		t := fld.Type()
+		switch {
+		case isNamed(t, "net", "Listener"):
+			f.Listener = fld.Name()
+		case isNamed(t, "sync", "Mutex") || isNamed(t, "sync", "RWMutex"):
+			f.Mutex = fld.Name()
+		}
+		switch u := t.Underlying().(type) {
+		case *types.Basic:
+			if u.Kind() == types.Bool {
+				bools = append(bools, fld.Name())
+			}
+		case *types.Map:
+			if kb, ok := u.Key().Underlying().(*types.Basic); ok && kb.Kind() == types.String {
+				if vb, ok := u.Elem().Underlying().(*types.Basic); ok && vb.Kind() == types.String {
+					f.Descriptions = fld.Name()
+				}
+				if it, ok := u.Elem().Underlying().(*types.Interface); ok {
+					for m := 0; m < it.NumMethods(); m++ {
+						if it.Method(m).Name() == "VarlinkDispatch" {
+							f.Interfaces = fld.Name()
+						}
+					}
+				}
+			}
+		case *types.Slice:
+			if eb, ok := u.Elem().Underlying().(*types.Basic); ok && eb.Kind() == types.String {
+				strLists = append(strLists, fld.Name())
+			}
+		}
+	}
+	if len(bools) == 1 {
+		f.Running = bools[0]
+	} else {
+		// the bool member a serving function stores true into
+		for _, sv := range ro.Serving {
+			for _, b := range sv.Blocks {
+				for _, in := range b.Instrs {
+					if st, ok := in.(*ssa.Store); ok {
+						if k, ok := st.Val.(*ssa.Const); ok && constTerm(k) == "const:true" {
+							if fa, ok := st.Addr.(*ssa.FieldAddr); ok && isNamed(fa.X.Type(), pkgVarlink, "Service") {
+								f.Running = fieldName(fa.X, fa.Field)
+							}
+						}
+					}
+				}
+			}
+		}
+	}
+	if len(strLists) == 1 {
+		f.Names = strLists[0]
+	} else if reg := p.Func(pkgVarlink, "Service.RegisterInterface"); reg != nil {
+		for _, b := range reg.Blocks {
+			for _, in := range b.Instrs {
+				if st, ok := in.(*ssa.Store); ok {
+					if fa, ok := st.Addr.(*ssa.FieldAddr); ok && isNamed(fa.X.Type(), pkgVarlink, "Service") {
+						for _, n := range strLists {
+							if fieldName(fa.X, fa.Field) == n {
+								f.Names = n
+							}
+						}
+					}
+				}
+			}
+		}
+	}
+	return f
 }
